@@ -117,5 +117,6 @@ int main(int argc, char** argv)
     };
     prop.run = runCase;
     prop.normalize = [](FrameHistory& h) { boundHistory(h, 400); };
+    prop.smartMutate = smartMutateHistory;
     return pbtMain(argc, argv, prop);
 }
